@@ -106,6 +106,9 @@ func TestCheck(t *testing.T) {
 					cases = append(cases, faults.Case{Kind: "h2-flood", Proto: "h2", K: k, Val: n})
 				}
 			}
+			for k := range faults.H2RareNames {
+				cases = append(cases, faults.Case{Kind: "h2-rare", Proto: "h2", K: k})
+			}
 			for _, proto := range []string{"h1", "h2"} {
 				for _, k := range []int{0} { // no fake time may pass while the proxy is blocked writing: the ReverseProxy flush timer goroutine would then wait for a mutex held by the blocked writer, which testing/synctest never sees as durable (the clock stops)
 					for v := 0; v < 3; v++ {
